@@ -58,7 +58,7 @@ def build_events(sc):
     for s in sc["sessions"]:
         evs.append(sut.PluginEvent(s["arrival"], build_ev(s)))
     for e in sc["extra_events"]:
-        evs.append(sut.RecomputeEvent(e["t"]))
+        evs.append(sut.Event(e["t"]) if e.get("type") == "Event" else sut.RecomputeEvent(e["t"]))
     sub(sc["sim"].get("shuffle_events", 0), "evshuffle").shuffle(evs)
     return sut.EventQueue(evs)
 
